@@ -119,8 +119,9 @@ def run(ctx):
             ctx.corr('get_switched_peak_array_indices', f"switched|{w_rat(tol)}|{w_rats(v)}", res,
                      lambda outs, val: cmp_exact([int(x) for x in val], p_ints(outs[0])),
                      inputs={'values': list(v), 'tol': float(tol)})
-            if res[0] != 'ok' or not nonconst:
+            if res[0] != 'ok' or (not nonconst and tol != 0):
                 continue
+            # constant series are series too (C12 says "for every series"): the tol = 0 clauses are evaluated on them as well
             S = [int(x) for x in res[1]]
             if P is None:
                 P = [int(p) for p in pc.get_peak_array_indices(arr)]
@@ -129,7 +130,8 @@ def run(ctx):
                 bad = spec_switched(vv, S, P)
                 ctx.oracle('C12.c-e switched peaks: ' + (bad or 'ascending / one per excursion at its largest |value| / zero-valued turning points / signs / global max'),
                            bad is None, inputs={'values': list(v)}, detail={'got': S, 'peaks': P},
-                           facts={'fn': 'switched', 'tol': 0.0, 'first_nonzero': bool(v[0] != 0)})
+                           facts={'fn': 'switched', 'tol': 0.0, 'first_nonzero': bool(v[0] != 0), 'all_zero': all(x == 0 for x in v),
+                                  'bad': bad})
             else:
                 ctx.oracle('switched peaks with tol>0 are a sublist of the peak list', is_subseq(S, P),
                            inputs={'values': list(v), 'tol': float(tol)}, detail={'got': S, 'peaks': P})
@@ -224,7 +226,13 @@ def _m_f12_2(f):
     return f['facts'].get('fn') == 'switched' and f['facts'].get('clause') == 'subsequence' and f['facts'].get('tol', 0) > 0
 
 
-KNOWN_MATCHERS = {'F12-2': _m_f12_2}
+def _m_f12_3(f):
+    # the all-zero series only: switched peaks [0, 0] (the duplicated index of the constant-series convention of get_peak_array_indices)
+    return (f['facts'].get('fn') == 'switched' and f['facts'].get('tol', 1) == 0 and f['facts'].get('all_zero') is True
+            and f['facts'].get('bad') == 'strictly ascending')
+
+
+KNOWN_MATCHERS = {'F12-2': _m_f12_2, 'F12-3': _m_f12_3}
 
 
 def known_witness(fid):
@@ -234,6 +242,8 @@ def known_witness(fid):
         s0 = list(pc.get_switched_peak_array_indices(v))
         s1 = list(pc.get_switched_peak_array_indices(v, tol=0.5))
         return not is_subseq(s1, s0)
+    if fid == 'F12-3':
+        return list(map(int, pc.get_switched_peak_array_indices(np.zeros(3)))) == [0, 0]
     return True
 
 
